@@ -162,6 +162,37 @@ func sizeSweep(c *corr.Ctx, s *cu.Spec) {
 	c.DistN(s.Name+".size-sweep-cases", n)
 }
 
+// ---- long runs -----------------------------------------------------------------------------------
+
+// longRuns: one Encode call whose single NALU fragments into more than 256 (thorough: also more
+// than 65536) packets at the smallest workable payload limits, followed by two further Encode calls
+// through the same encoder / decoder pair: a packet counter narrower than the sequence number would
+// show at the first packet of the following call (C06 numbering clause of cu.RoundTrip) and in the
+// round trip of the following frames (C03).
+func longRuns(c *corr.Ctx, s *cu.Spec) {
+	fm := famOf(s)
+	rg := c.Rng
+	for i := 0; i < c.N(3, 24); i++ {
+		max := fm.minMax + rg.IntN(3)
+		k := 257 + rg.IntN(400)
+		if !c.Quick() && i == 0 { // one per codec: the model appends to a list per packet (quadratic)
+			k = 65537 + rg.IntN(200)
+			max = fm.minMax
+		}
+		avail := max - fm.fuHdr
+		size := func(pk int) int { return fm.naluHdr + pk*avail - rg.IntN(avail) } // exactly pk fragments
+		p := cu.EncParams{PT: 96, SSRC: rg.Uint32(), Seq0: uint16(rg.IntN(65536)), Max: max}
+		cu.RoundTrip(c, s, p, func(*cu.Instance) []cu.Frame {
+			return []cu.Frame{
+				{fm.genNALU(rg, size(k))},
+				{fm.genNALU(rg, fm.naluHdr+rg.IntN(max))},
+				{fm.genNALU(rg, fm.naluHdr), fm.genNALU(rg, size(300))},
+			}
+		}, fmt.Sprintf("%s-longrun-%d", s.Name, i))
+		c.Dist(fmt.Sprintf("%s.longrun-packets>=%d", s.Name, map[bool]int{true: 65537, false: 257}[k > 65536]))
+	}
+}
+
 // ---- the validity predicate itself ---------------------------------------------------------------
 
 // validCases compares the Go rendering of ValidFrame / ValidCfg (what the generators draw from)
@@ -589,7 +620,7 @@ func ptsCases(c *corr.Ctx, s *cu.Spec) {
 // Run is the domain entry point.
 func Run(c *corr.Ctx) {
 	ctx = c
-	c.Rule("per codec (h264, h265): round trips of 1..3 consecutive valid access units (NALU sizes concentrated within ±8 of the single/fragmented, aggregation-fit and k-fragment thresholds of the drawn payload limit; limits from the smallest workable value, mostly below 64, sometimes 100..400 and 1450; NALU counts up to the cap; initial sequence numbers incl. wrap inside the run), exhaustive single-size / size-pair sweeps at small limits, random fault streams + enumerated single (thorough: double) drop/dup/swap faults on 3-frame streams of all shape combinations, frames outside ValidFrame through the real encoder/decoder (correspondence only), the ValidFrame / ValidCfg predicates themselves (Go rendering vs Lean), hostile streams (random, grammar-aware FU / aggregation / Annex-B payloads, mutated, shuffled, endless fragments, NALU-count and size caps incl. exactly MaxAccessUnitSize), PTSEqualsDTS on hostile and valid payloads with all prefixes; non-trivial = multi-packet or multi-frame or faulted; distinct = distinct op-line sequences")
+	c.Rule("per codec (h264, h265): round trips of 1..3 consecutive valid access units (NALU sizes concentrated within ±8 of the single/fragmented, aggregation-fit and k-fragment thresholds of the drawn payload limit; limits from the smallest workable value, mostly below 64, sometimes 100..400 and 1450; NALU counts up to the cap; initial sequence numbers incl. wrap inside the run), exhaustive single-size / size-pair sweeps at small limits, long runs (one Encode call of >= 257, thorough also >= 65537, fragments followed by two more calls), random fault streams + enumerated single (thorough: double) drop/dup/swap faults on 3-frame streams of all shape combinations, frames outside ValidFrame through the real encoder/decoder (correspondence only), the ValidFrame / ValidCfg predicates themselves (Go rendering vs Lean), hostile streams (random, grammar-aware FU / aggregation / Annex-B payloads, mutated, shuffled, endless fragments, NALU-count and size caps incl. exactly MaxAccessUnitSize), PTSEqualsDTS on hostile and valid payloads with all prefixes; non-trivial = multi-packet or multi-frame or faulted; distinct = distinct op-line sequences")
 	specs := []*cu.Spec{H264, H265}
 	if c.Replay != nil {
 		runInput(c, specs, c.Replay, "replay")
@@ -603,6 +634,7 @@ func Run(c *corr.Ctx) {
 		cu.RunAll(c, s)
 		if c.Want("C03") || c.Want("C06") {
 			sizeSweep(c, s)
+			longRuns(c, s)
 			validCases(c, s)
 			invalidCases(c, s)
 		}
